@@ -161,7 +161,9 @@ TDeliver ==
   /\ UNCHANGED <<nodeOf, saved, everRAA, projB>>
   /\ fw' = IF R.chan = 0 THEN fw ELSE
             IF R.kind = "update_add_htlc"
-            THEN [fw EXCEPT !.adds = @ \cup {[node |-> R.to, chan |-> R.chan, dir |-> "in", hash |-> R.hash, amt |-> R.amt, cltv |-> R.cltv]}]
+            THEN [fw EXCEPT !.adds = @ \cup {[node |-> R.to, chan |-> R.chan, dir |-> "in", hash |-> R.hash, amt |-> R.amt, cltv |-> R.cltv]},
+                            \* (an HTLC whose onion the receiver cannot process is failed back by it, rightly)
+                            !.mustAcc = IF R.bad_onion THEN {} ELSE @]
             ELSE IF R.kind = "update_fulfill_htlc" /\ ~Closed(EP(R.chan, R.to))   \* (a closed endpoint ignores it)
                  THEN [fw EXCEPT !.downFul = @ \cup {<<R.to, R.hash>>}]
             ELSE IF R.kind = "revoke_and_ack" /\ ~Closed(EP(R.chan, R.to))
